@@ -6,6 +6,66 @@ import common as c
 WATCHDOG_S = 900
 
 
+def _furthest(ctx, path):
+    """-> (furthest record reached, invariant violated by the observed behaviour or None)"""
+    r = c.run_tlc(ctx, "Trace_ParallelExec.tla", "Trace_ParallelExec.cfg", workers=1, timeout=900, env={"TRACE": path}, xss="1g",
+                  deque=True, tag="trace")
+    ctx.cov["tlc_runs"].append({"cfg": "Trace_ParallelExec.cfg", "generated": r["generated"], "distinct": r["distinct"],
+                                "wall_s": r["wall"], "role": "trace validation"})
+    ctx.cov["states"] += r["distinct"]
+    ctx.cov["transitions"] += r["generated"]
+    if r["violated"]:
+        return 0, r["violated"]
+    for ln in r["out"]:
+        if "FURTHEST" in ln:
+            return int(ln.split(",")[1]), None
+    raise c.ToolError("no FURTHEST line from Trace_ParallelExec: %s" % r["errors"][:2])
+
+
+def traces(ctx, runs):
+    """L3: schedules observed through the worker-event hook, validated against ParallelExec.tla (one TLC run per configuration)."""
+    import glob
+    import os
+    d = ctx.path("par_traces")
+    p = c.vh(["parrec", "--dir", d, "--runs", runs, "--seed", ctx.seed], timeout=3600)
+    if p.returncode != 0:
+        raise c.ToolError("parrec failed: " + p.stderr[-500:])
+    info = json.loads(p.stdout.strip().splitlines()[-1])
+    files = sorted(glob.glob(os.path.join(d, "cfg_*.ndjson")))
+    rejected = 0
+    for fn in files:
+        lines = open(fn).read().splitlines()
+        far, viol = _furthest(ctx, fn)
+        if viol:
+            rejected += 1
+            ctx.failures.append({"model": "parallel-trace", "kind": "invariant-violated-by-observed-schedule", "cfg": json.loads(lines[0]), "prefix": [],
+                                 "label": {"file": os.path.basename(fn), "invariant": viol},
+                                 "allowed": ["every invariant of ParallelExec.tla holds in every state of the observed behaviour"],
+                                 "actual": {"invariant": viol, "first_events": [json.loads(x) for x in lines[1:40]]}})
+        elif far != len(lines) + 1:
+            rejected += 1
+            lo = max(1, far - 6)
+            ctx.failures.append({"model": "parallel-trace", "kind": "trace-rejected", "cfg": json.loads(lines[0]), "prefix": [],
+                                 "label": {"file": os.path.basename(fn), "record": far},
+                                 "allowed": ["a behaviour of ParallelExec.tla (every invariant holding in every state)"],
+                                 "actual": {"events_up_to_the_rejected_one": [json.loads(x) for x in lines[lo:far]]}})
+    # binding demonstration (tool sanity): one corrupted field must make the trace unacceptable
+    lines = open(files[0]).read().splitlines()
+    k = next(i for i, x in enumerate(lines) if '"e":"eval"' in x)
+    rec = json.loads(lines[k])
+    rec["fired"] = not rec["fired"]
+    bad = ctx.path("par_corrupted.ndjson")
+    open(bad, "w").write("\n".join(lines[:k] + [json.dumps(rec)] + lines[k + 1:]) + "\n")
+    if _furthest(ctx, bad)[0] != k + 1:
+        raise c.ToolError("a corrupted trace (flipped verdict in record %d) was not rejected at that record" % (k + 1))
+    ctx.cov["traces_validated_against_impl"] += info["runs"]
+    ctx.cov["evaluations"] += info["events"]
+    ctx.cov["observed_schedules"] = info
+    ctx.cov["samples"].append({"observed_schedule_header": json.loads(lines[0]), "first_events": [json.loads(x) for x in lines[1:8]]})
+    c.log("  L3: %d observed runs of execute_parallel (%d events, %d configurations) validated against ParallelExec.tla: %d rejected; "
+          "a trace with one flipped verdict is rejected at that record" % (info["runs"], info["events"], len(files), rejected))
+
+
 def run(ctx):
     q = ctx.quick()
     for cfg in ("MC_ParallelExec.cfg", "MC_ParallelExec_2.cfg", "MC_ParallelExec_3.cfg"):
@@ -33,6 +93,7 @@ def run(ctx):
     except subprocess.TimeoutExpired:
         ctx.failures.append({"model": "parallel", "kind": "did-not-return", "cfg": {}, "prefix": [], "label": {"watchdog_s": WATCHDOG_S},
                              "allowed": ["execute_parallel returns"], "actual": "the harness was still running after the watchdog"})
+    traces(ctx, 30 if q else 600)
     ctx.cov["rule"] = ("design: TLC explores every interleaving of the fork-join model for three small configurations (incl. a disabled rule "
                        "and a fully disabled salience level) and checks bag equality with the sequential result, each rule once, level "
                        "order, no early start and <>returned, plus the chunk arithmetic for n<=24, threads<=16 as a lemma. code: every "
@@ -40,14 +101,22 @@ def run(ctx):
                        "parallel on/off, and a 250-level left-deep conjunction in one rule) is run R times on the real engine - half of them "
                        "with one engine reused across two same-named, same-version knowledge bases with different thresholds - alternately with seeded random spins and with the last rule of "
                        "every worker's chunk rendez-vousing with the other workers of its level - and the set of (rule, fired) and both "
-                       "totals are compared with the engine's own sequential path")
+                       "totals are compared with the engine's own sequential path. schedules: with the verif-hooks feature the engine logs one event per "
+                       "step of the fork-join structure at its linearization point (level start, rule evaluated, results mutex acquired, results "
+                       "appended under the mutex, join, return); the logs of 30 (thorough 600) runs of each of 14 configurations are validated by TLC "
+                       "against ParallelExec.tla with all its invariants evaluated in every state")
     ctx.assumptions += ["schedule independence is exhaustive for the model only; on the code it is explored through perturbed and rendez-vous "
-                        "schedules (no worker-event hook was added, so observed schedules are not trace-validated against ParallelExec.tla)",
+                        "schedules; every schedule that does occur in the recorded runs is validated against ParallelExec.tla",
                         "the oracle is the engine's own sequential path on the same rules and facts, as the statement prescribes",
                         "actions do not change the facts in the parallel engine (Set is a no-op there), so verdicts depend on the facts only"]
     return c.finish(ctx, "model_checking")
 
 
 def replay(ctx, path):
+    f = json.load(open(path))
+    if f.get("model") == "parallel-trace":
+        print("observed schedule rejected by Trace_ParallelExec.tla (schedules are not deterministic to replay); events before the rejection:")
+        print(json.dumps(f["actual"])[:3000])
+        return 1
     p = subprocess.run([c.VH, "replay-one", "parallel", path])
     return 1 if p.returncode == 1 else (0 if p.returncode == 0 else 2)
